@@ -488,6 +488,21 @@ impl Runner {
                             Ok(r) => r,
                             Err(p) => Err(format!("panic: {}", panic_msg(&p))),
                         };
+                        // "inconclusive: ..." = the harness lost control of a case (stuck schedule,
+                        // deadlock of the explorer): never a violation; counted and reported
+                        let r = match r {
+                            Err(msg) if msg.starts_with("inconclusive:") => {
+                                if !failed.get() {
+                                    let mut l = local_cell.borrow_mut();
+                                    *l.counters.entry("inconclusive_cases".into()).or_insert(0) += 1;
+                                    if std::env::var("VERIF_DEBUG").is_ok() {
+                                        eprintln!("[vf] {msg}");
+                                    }
+                                }
+                                Ok(())
+                            }
+                            other => other,
+                        };
                         // known finding? count and continue
                         let r = match r {
                             Err(msg) => {
@@ -668,6 +683,13 @@ impl Runner {
                                 }
                             }
                         }
+                        let r = match r {
+                            Err(msg) if msg.starts_with("inconclusive:") => {
+                                *l.counters.entry("inconclusive_cases".into()).or_insert(0) += 1;
+                                Ok(())
+                            }
+                            other => other,
+                        };
                         if let Err(msg) = r {
                             let known = ctx
                                 .signature
@@ -762,6 +784,11 @@ impl Runner {
                 }
             }
             sub_map.insert(s.name.clone(), m);
+            if let Some(n) = s.counters.get("inconclusive_cases") {
+                if *n * 50 > s.evaluations.max(1) {
+                    self.inconclusive.push(format!("sub {}: {} of {} cases were inconclusive (harness lost control)", s.name, n, s.evaluations));
+                }
+            }
             // vacuity guard: a sub-check that ran many cases and saw no
             // non-trivial one decided nothing
             if s.evaluations >= 50 && s.nontrivial.is_empty() && self.violations.is_empty() {
